@@ -64,9 +64,8 @@ def parseScalar (s : String) : Option Scalar :=
       else if k == "n" || k == "k" then v.toNat?.map .num
       else if k == "m" then v.toNat?.map .neg
       else if k == "f" then some (.float v)
-      -- `sizeof(<template><uint>(1u))`: the evaluator's value is 4 (what the type check of the value does to the module -
-      -- it instantiates the template - is outside this model: assumption `property values register no functions`)
-      else if k == "z" then some (.num 4)
+      -- `sizeof(<template><uint>(1u))`: value 4; the instantiation it leaves in the module is `instancesOf`
+      else if k == "z" then some (.sizeofInst v)
       else if k == "b" then some (.bool (v == "1"))
       else none
     | [] => none
